@@ -1,1 +1,30 @@
-(* placeholder *)
+(* C10 - Unbind ends the connection: nothing after it is served.
+   ONLY statements.  The model is the labelled transition system of Sys.v:
+   every interleaving of the Run thread, any number of Stop calls, connection
+   goroutines, per-request goroutines (with arbitrary handler scripts) and the
+   environment (clients, barriers, slow OnClose).  [reachable cfg s]: s is the
+   result of some label sequence from the initial state.  The boolean fields
+   of [cfg] are the places where the pinned and the current tree differ;
+   [fixed_cfg] is the current tree (validated behaviourally on every run by the
+   scenario correspondence), [pinned_cfg] the tree before the fix commits. *)
+From G Require Import Base Sys SysProofs SysProps.
+Open Scope nat_scope.
+
+Theorem C10_nothing_after : forall cfg s i c, reachable cfg s -> conn_of s i c ->
+  read_after_unbind c = 0 /\
+  (unbind_seen c = true -> match pc c with CInline KUnbind _ | CTeardown _ | CDone => True | _ => False end) /\
+  count_unbind (started c) <= 1 /\ (unbind_seen c = false -> count_unbind (started c) = 0).
+Proof. exact c10_nothing_after_unbind. Qed.
+Print Assumptions C10_nothing_after.
+
+Theorem C10_no_more_reads : forall cfg s c c' e, conn_step cfg s c = Some (c', e) ->
+  (match pc c with CInline KUnbind _ | CTeardown _ | CDone => True | _ => False end) ->
+  nread c' = nread c /\ started c' = started c /\
+  (match pc c' with CInline KUnbind _ | CTeardown _ | CDone => True | _ => False end).
+Proof. exact c10_no_more_reads. Qed.
+Print Assumptions C10_no_more_reads.
+
+Theorem C10_close_after_handlers : forall cfg s i c, reachable cfg s -> conn_of s i c ->
+  onclose c <= 1 /\ (onclose c = 1 -> inflight c = 0 /\ hs c = [] /\ sock_closed c = true).
+Proof. exact c08_once_after_handlers. Qed.
+Print Assumptions C10_close_after_handlers.
